@@ -40,7 +40,9 @@ RULE = (
     "CLI's literal --output), observing proxies on caller-supplied handles (write/writelines/truncate), /proc/self/fd "
     "scan for descriptors under the evidence directory opened O_WRONLY/O_RDWR, and a before/after digest (content, "
     "size, mtime, mode) of the evidence directory; plus the repository's own 47 tests run under the audit hook, and in "
-    "the thorough tier the same sweep under strace -f as an OS-level witness. Reported: which repository call sites "
+    "the thorough tier the same sweep under strace -f as an OS-level witness. Every handle-based disk class is also given real 'rb' and 'r+b' file "
+    "objects (incl. views derived from an opened image), and the decrypt tool is interrupted (KeyboardInterrupt / ENOSPC raised out of a random "
+    "line event inside the repository - a source-free failpoint) six times per case with the evidence digest compared afterwards. Reported: which repository call sites "
     "were observed opening files vs. the sites a syntactic scan finds. distinct = (entry point, configuration, fault)."
 )
 ASSUMPTIONS = [
